@@ -1,4 +1,5 @@
 import Zog.Preds
+import Zog.Gen.Regex
 
 /-!
 # C20 — built-in tests decide exactly their documented predicate
@@ -136,17 +137,89 @@ theorem time_spec (t ns : Int) (u : Bool) :
     (timeCmp .eq t (.time ns u) = true ↔ ns = t) := by
   simp [timeCmp, cmpInt]
 
-/-! ## UUID grammar -/
+/-! ## UUID and e-mail: the shipped regular expressions decide exactly the stated grammars
+`Gen.uuidRegex` / `Gen.emailRegex` are REGENERATED from string.go on every run (the string literals
+given to `regexp.MustCompile`, parsed with `regexp/syntax`). `Rx.Re.search` is a backtracking
+semantics of that fragment of RE2 (validated against Go's `regexp` by the exhaustive S-preds
+stream, where it is the model of `UUID()` / `Email()`). -/
 
-/-- a UUID has exactly 36 characters: hyphens at 8, 13, 18, 23 and hex digits elsewhere -/
+open Rx in
+/-- the pattern in the source is `^H{8}\b-H{4}\b-H{4}\b-H{4}\b-H{12}$` with `H = [0-9A-Fa-f]` -/
+theorem uuid_pattern_regenerated : Gen.uuidRegex = some (Re.cat .bot (chainRe hexRanges [8, 4, 4, 4, 12])) := by decide
+
+open Rx in
+/-- the pattern in the source is the e-mail pattern the model runs -/
+theorem email_pattern_regenerated : Gen.emailRegex = some emailRe := by decide
+
+/-- **UUID.** On every text, the shipped pattern matches iff the text is 8-4-4-4-12 hexadecimal
+    digits separated by dashes and nothing else (which is also the model of the `UUID()` test). -/
+theorem uuid_regex_is_grammar (r : Rx.Re) (hr : Gen.uuidRegex = some r) (cs : List Char) :
+    r.search cs = isUUIDChars cs := by
+  rw [uuid_pattern_regenerated] at hr
+  cases hr
+  exact Rx.uuid_regex_is_grammar cs
+
+/-- **E-mail.** On every text, the shipped pattern matches iff the text is a non-empty local part of
+    letters, digits and ``.!#$%&'*+/=?^_`{|}~-``, an `@`, and one or more dot-separated labels, each
+    1 to 63 letters, digits or hyphens that neither starts nor ends with a hyphen (`Rx.IsEmail`). -/
+theorem email_regex_is_grammar (r : Rx.Re) (hr : Gen.emailRegex = some r) (cs : List Char) :
+    r.search cs = true ↔ Rx.IsEmail cs := by
+  rw [email_pattern_regenerated] at hr
+  cases hr
+  exact Rx.email_regex_is_grammar cs
+
+/-- the model of `Email()` is the semantics of that pattern, hence the grammar -/
+theorem email_model_is_grammar (s : String) : isEmail s = true ↔ Rx.IsEmail s.toList :=
+  Rx.email_regex_is_grammar s.toList
+
+theorem takeN_length (p : Char → Bool) : ∀ (n : Nat) (pos q : Rx.Pos), Rx.takeN p n pos = some q → pos.2.length = n + q.2.length
+  | 0, pos, q, h => by simp only [Rx.takeN, Option.some.injEq] at h; subst h; simp
+  | n + 1, (_, []), q, h => by simp [Rx.takeN] at h
+  | n + 1, (_, c :: cs), q, h => by
+    simp only [Rx.takeN] at h
+    by_cases hc : p c = true
+    · simp only [hc, ↓reduceIte] at h
+      have := takeN_length p n (some c, cs) q h
+      simp only [List.length_cons] at this ⊢
+      omega
+    · simp [hc] at h
+
+/-- a UUID has exactly 36 characters -/
 theorem uuid_length (s : String) (h : isUUID s = true) : s.toList.length = 36 := by
-  simp [isUUID, isUUIDChars] at h; exact h.1
+  simp only [isUUID, isUUIDChars, Rx.uuidGrammar, Rx.segs] at h
+  split at h
+  · rename_i _ r1 h1
+    have l1 := takeN_length _ _ _ _ h1
+    split at h
+    · rename_i _ r2 h2
+      have l2 := takeN_length _ _ _ _ h2
+      split at h
+      · rename_i _ r3 h3
+        have l3 := takeN_length _ _ _ _ h3
+        split at h
+        · rename_i _ r4 h4
+          have l4 := takeN_length _ _ _ _ h4
+          split at h
+          · rename_i _ h5
+            have l5 := takeN_length _ _ _ _ h5
+            simp only [List.length_cons, List.length_nil] at l1 l2 l3 l4 l5
+            omega
+          · simp at h
+        · simp at h
+      · simp at h
+    · simp at h
+  · simp at h
 
 example : isUUID "123e4567-e89b-12d3-a456-426614174000" = true := by decide
 example : isUUID "123e4567-e89b-12d3-a456-42661417400" = false := by decide
 example : isUUID "123e4567-e89b-12d3-a456_426614174000" = false := by decide
-example : isEmail "a@b.co" = true := by decide
-example : isEmail "a@b..co" = false := by decide
-example : isEmail "@b.co" = false := by decide
+example : isEmail "a@b.co" = true := by decide +kernel
+example : isEmail "a@b..co" = false := by decide +kernel
+example : isEmail "@b.co" = false := by decide +kernel
+example : Rx.IsEmail "a@b.co".toList :=
+  ⟨['a'], ['b'], [['c', 'o']], by decide, by decide, by decide,
+    ⟨'b', [], rfl, by decide, .inl rfl⟩, fun l hl => by
+      simp only [List.mem_singleton] at hl; subst hl
+      exact ⟨'c', ['o'], rfl, by decide, .inr ⟨[], 'o', rfl, by decide, by simp, by decide⟩⟩⟩
 
 end Zog.Props.C20
